@@ -3,9 +3,14 @@
 package type1
 
 import (
+	"github.com/cloudflare/circl/group"
+	"github.com/cloudflare/circl/oprf"
 	. "github.com/cloudflare/pat-go/internal/vspec"
 	"github.com/cloudflare/pat-go/tokens"
 )
+
+var _ = group.P384
+var _ = oprf.SuiteP384
 
 var _ = tokens.SpecTokenInput
 
@@ -81,4 +86,210 @@ func lemmaT1RequestReencode(r, r2 *BasicPrivateTokenRequest, b []byte) {
 func lemmaT1RejectsOtherTypes(r *BasicPrivateTokenRequest, b []byte) {
 	Vassume(r != nil && len(b) >= 2 && (b[0] != 0 || b[1] != 1))
 	Vassert(!r.Unmarshal(b))
+}
+
+// ---------------------------------------------------------------------------
+// Issuer
+
+// specIssuerOK: the issuer holds a P-384 VOPRF key whose public key has been computed (after
+// construction nothing inside the key object is written any more, see C17).
+//
+//@ spec
+func specIssuerOK(key *oprf.PrivateKey) bool {
+	return key != nil && SKSuite(key) == oprf.SuiteP384 && PubCached(key)
+}
+
+//@ func NewBasicPrivateIssuer(key *oprf.PrivateKey) (i *BasicPrivateIssuer)
+//@ props C01 C17
+//@ requires key != nil
+//@ ensures i != nil && fresh(i) && i.tokenKey == key
+//@ ensures[C17] PubCached(key)
+//@ assigns ghost(PubCached(key)) when !PubCached(key)
+//@ end
+
+//@ func (i *BasicPrivateIssuer) TokenKey() (pk *oprf.PublicKey)
+//@ props C01 C17 C18
+//@ requires i.tokenKey != nil && PubCached(i.tokenKey)
+//@ ensures pk != nil && PKVal(pk) == OPRFPub(SKSuite(i.tokenKey), SKVal(i.tokenKey)) && PKSuite(pk) == SKSuite(i.tokenKey)
+//@ assigns none
+//@ end
+
+//@ func (i *BasicPrivateIssuer) TokenKeyID() (id []byte)
+//@ props C01 C03 C16 C17 C18
+//@ requires i.tokenKey != nil && PubCached(i.tokenKey)
+//@ ensures string(id) == SHA256(OPRFPub(SKSuite(i.tokenKey), SKVal(i.tokenKey))) && len(id) == 32 && fresh(id)
+//@ assigns none
+//@ end
+
+// EntropyFailed: the event that the system entropy source fails (issuers use it for proof randomness).
+//
+//@ func (i BasicPrivateIssuer) Evaluate(req *BasicPrivateTokenRequest) (resp []byte, err error)
+//@ props C01 C03 C05 C16 C17
+//@ requires req != nil && specIssuerOK(i.tokenKey)
+//@ let blinded = string(req.BlindedReq)
+//@ ensures err == nil ==> ElemValid(group.P384, blinded) && fresh(resp)
+//@ ensures err == nil && len(req.BlindedReq) == Ne ==> len(resp) == Ne+2*Nk && string(resp[:Ne]) == OPRFEvalE(oprf.SuiteP384, SKVal(i.tokenKey), blinded)
+//@ ensures err == nil && len(req.BlindedReq) == Ne ==> DLEQOK(oprf.SuiteP384, OPRFPub(oprf.SuiteP384, SKVal(i.tokenKey)), blinded, string(resp[:Ne]), string(resp[Ne:])) && ProofValidEnc(group.P384, string(resp[Ne:]))
+//@ ensures ElemValid(group.P384, blinded) && !EntropyFailed() ==> err == nil
+//@ ensures err != nil ==> resp == nil
+//@ assigns none
+//@ end
+
+// Verification accepts a token exactly when its authenticator is the VOPRF evaluation, under the
+// issuer's key, of token_type || nonce || context || key_id as carried in the token (all bytes).
+//
+//@ func (i BasicPrivateIssuer) Verify(token tokens.Token) (err error)
+//@ props C01 C03 C10 C16 C17
+//@ requires specIssuerOK(i.tokenKey)
+//@ let input = tokens.SpecTokenInput(token.TokenType, string(token.Nonce), string(token.Context), string(token.KeyID))
+//@ ensures !BlindFails(oprf.SuiteP384, input) ==> (err == nil) == (string(token.Authenticator) == OPRFFull(oprf.SuiteP384, SKVal(i.tokenKey), input))
+//@ ensures BlindFails(oprf.SuiteP384, input) && err == nil ==> string(token.Authenticator) == OPRFFull(oprf.SuiteP384, SKVal(i.tokenKey), input)
+//@ assigns none
+//@ end
+
+// ---------------------------------------------------------------------------
+// Client
+
+// specStateOK: the request state a successful CreateTokenRequest* returns.
+//
+//@ spec
+func specStateOK(s BasicPrivateTokenRequestState) bool {
+	return s.verifier != nil && s.verificationKey != nil && s.request != nil &&
+		VCKey(s.client) == s.verificationKey && VCSuite(s.client) == oprf.SuiteP384 &&
+		FDCount(s.verifier) == 1 && FDSuite(s.verifier) == oprf.SuiteP384 &&
+		FDInput(s.verifier, 0) == string(s.tokenInput) && len(s.tokenInput) == 98
+}
+
+//@ func (c BasicPrivateClient) CreateTokenRequest(challenge []byte, nonce []byte, tokenKeyID []byte, verificationKey *oprf.PublicKey) (s BasicPrivateTokenRequestState, err error)
+//@ props C01 C03 C16 C18
+//@ requires len(tokenKeyID) >= 1 && verificationKey != nil
+//@ let input = tokens.SpecTokenInput(BasicPrivateTokenType, string(nonce), SHA256(string(challenge)), string(tokenKeyID))
+//@ ensures err == nil ==> string(s.tokenInput) == input && fresh(s.tokenInput) && s.request != nil && fresh(s.request) && s.verificationKey == verificationKey
+//@ ensures err == nil ==> s.request.TokenKeyID == tokenKeyID[len(tokenKeyID)-1] && s.request.raw == nil && fresh(s.request.BlindedReq)
+//@ ensures err == nil ==> string(s.request.BlindedReq) == OPRFBlindE(oprf.SuiteP384, input, FDBlind(s.verifier, 0))
+//@ ensures err == nil && len(nonce) == 32 && len(tokenKeyID) == 32 ==> specStateOK(s)
+//@ ensures !BlindFails(oprf.SuiteP384, input) ==> err == nil
+//@ assigns none
+//@ end
+
+//@ func (c BasicPrivateClient) CreateTokenRequestWithBlind(challenge []byte, nonce []byte, tokenKeyID []byte, verificationKey *oprf.PublicKey, blindEnc []byte) (s BasicPrivateTokenRequestState, err error)
+//@ props C01 C03 C11 C16 C18
+//@ requires len(tokenKeyID) >= 1 && verificationKey != nil && len(blindEnc) <= 48
+//@ let input = tokens.SpecTokenInput(BasicPrivateTokenType, string(nonce), SHA256(string(challenge)), string(tokenKeyID))
+//@ ensures err == nil ==> string(s.tokenInput) == input && fresh(s.tokenInput) && s.request != nil && fresh(s.request) && s.verificationKey == verificationKey
+//@ ensures err == nil ==> s.request.TokenKeyID == tokenKeyID[len(tokenKeyID)-1] && s.request.raw == nil && fresh(s.request.BlindedReq)
+//@ ensures err == nil ==> string(s.request.BlindedReq) == OPRFBlindE(oprf.SuiteP384, input, string(blindEnc)) && FDBlind(s.verifier, 0) == string(blindEnc)
+//@ ensures err == nil && len(nonce) == 32 && len(tokenKeyID) == 32 ==> specStateOK(s)
+//@ ensures ScalarValid(group.P384, string(blindEnc)) && !BlindFails(oprf.SuiteP384, input) ==> err == nil
+//@ assigns none
+//@ end
+
+// A finalization succeeds only if the issuer's proof verifies against the pinned public key for this
+// request's blinded element; the token then carries this request's input and the unblinded output.
+//
+//@ func (s BasicPrivateTokenRequestState) FinalizeToken(tokenResponseEnc []byte) (token tokens.Token, err error)
+//@ props C01 C02 C03 C11 C16
+//@ requires specStateOK(s)
+//@ let in = string(s.tokenInput)
+//@ let blinded = OPRFBlindE(oprf.SuiteP384, string(s.tokenInput), FDBlind(s.verifier, 0))
+//@ let resp = string(tokenResponseEnc)
+//@ ensures[C01 C02 C11] err == nil ==> len(resp) >= Ne+2*Nk && ElemValid(group.P384, resp[:Ne]) && ProofValidEnc(group.P384, resp[Ne:])
+//@ ensures[C01 C02 C11] err == nil && len(resp) == Ne+2*Nk ==> DLEQOK(oprf.SuiteP384, PKVal(s.verificationKey), blinded, resp[:Ne], resp[Ne:])
+//@ ensures[C01 C02 C11] err == nil ==> tokens.SpecTokenInput(token.TokenType, string(token.Nonce), string(token.Context), string(token.KeyID)) == in
+//@ ensures[C01 C02 C11] err == nil ==> string(token.Authenticator) == OPRFFinal(oprf.SuiteP384, in, FDBlind(s.verifier, 0), resp[:Ne]) && len(token.Authenticator) == Nk
+//@ ensures[C01 C02 C11] len(resp) == Ne+2*Nk && ElemValid(group.P384, resp[:Ne]) && ProofValidEnc(group.P384, resp[Ne:]) && DLEQOK(oprf.SuiteP384, PKVal(s.verificationKey), blinded, resp[:Ne], resp[Ne:]) ==> err == nil
+//@ assigns spare(s.tokenInput)
+//@ end
+
+// ---------------------------------------------------------------------------
+// Property-level lemmas (token type 0x0001)
+
+// C01: an honest run in which the request crosses the wire as bytes completes without error and yields a
+// token that verifies under the issuer's key and is exactly type || nonce || SHA-256(challenge) || key id ||
+// authenticator (48 bytes). The two hypotheses are the negligible-probability events of the VOPRF
+// (an input hashing to the identity element) and a failing entropy source.
+//
+//@ lemma props C01
+func lemmaHonestType1(key *oprf.PrivateKey, challenge, nonce []byte, dst *BasicPrivateTokenRequest) {
+	Vassume(key != nil && SKSuite(key) == oprf.SuiteP384 && len(nonce) == 32 && dst != nil)
+	issuer := NewBasicPrivateIssuer(key)
+	client := BasicPrivateClient{}
+	keyID := issuer.TokenKeyID()
+	pk := issuer.TokenKey()
+	input := tokens.SpecTokenInput(BasicPrivateTokenType, string(nonce), SHA256(string(challenge)), string(keyID))
+	Vassume(!BlindFails(oprf.SuiteP384, input) && !EntropyFailed())
+	state, err := client.CreateTokenRequest(challenge, nonce, keyID, pk)
+	Vassert(err == nil)
+	enc := state.Request().Marshal()
+	ok := dst.Unmarshal(enc)
+	Vassert(ok)
+	Vassert(string(dst.BlindedReq) == string(state.request.BlindedReq)) // proof step: the element crossed the wire unchanged
+	resp, err2 := issuer.Evaluate(dst)
+	Vassert(err2 == nil)
+	Vassert(PKVal(pk) == OPRFPub(oprf.SuiteP384, SKVal(key)))
+	token, err3 := state.FinalizeToken(resp)
+	Vassert(err3 == nil)
+	Vassert(issuer.Verify(token) == nil)
+	Vassert(len(token.Authenticator) == Nk)
+	Vassert(string(token.Marshal()) == U16(BasicPrivateTokenType)+string(nonce)+SHA256(string(challenge))+string(keyID)+string(token.Authenticator))
+}
+
+// C02: whatever bytes come back, a finalization that succeeds returns a token that verifies under the
+// issuer key the request was created for (given the idealised soundness of the DLEQ proof) and that
+// carries this request's nonce, challenge digest and key id.
+//
+//@ lemma props C02
+func lemmaFinalizeSoundType1(key *oprf.PrivateKey, s BasicPrivateTokenRequestState, resp []byte) {
+	Vassume(specIssuerOK(key) && specStateOK(s) && PKVal(s.verificationKey) == OPRFPub(oprf.SuiteP384, SKVal(key)))
+	Vassume(len(resp) == Ne+2*Nk)
+	in := string(s.tokenInput)
+	Vassume(!BlindFails(oprf.SuiteP384, in))
+	token, err := s.FinalizeToken(resp)
+	if err == nil {
+		issuer := BasicPrivateIssuer{tokenKey: key}
+		Vassert(issuer.Verify(token) == nil)
+		Vassert(tokens.SpecTokenInput(token.TokenType, string(token.Nonce), string(token.Context), string(token.KeyID)) == in)
+	}
+}
+
+// C11: with caller-supplied blinds the finalized token does not depend on the blind.
+//
+//@ lemma props C11
+func lemmaTokenIgnoresBlindType1(key *oprf.PrivateKey, challenge, nonce, blind1, blind2 []byte) {
+	Vassume(key != nil && SKSuite(key) == oprf.SuiteP384 && len(nonce) == 32 && len(blind1) <= 48 && len(blind2) <= 48)
+	issuer := NewBasicPrivateIssuer(key)
+	client := BasicPrivateClient{}
+	keyID := issuer.TokenKeyID()
+	pk := issuer.TokenKey()
+	s1, e1 := client.CreateTokenRequestWithBlind(challenge, nonce, keyID, pk, blind1)
+	s2, e2 := client.CreateTokenRequestWithBlind(challenge, nonce, keyID, pk, blind2)
+	Vassume(e1 == nil && e2 == nil)
+	r1, e3 := issuer.Evaluate(s1.Request())
+	r2, e4 := issuer.Evaluate(s2.Request())
+	Vassume(e3 == nil && e4 == nil)
+	in := tokens.SpecTokenInput(BasicPrivateTokenType, string(nonce), SHA256(string(challenge)), string(keyID))
+	Vassert(len(s1.request.BlindedReq) == Ne && len(s2.request.BlindedReq) == Ne)
+	Vassert(string(r1[:Ne]) == OPRFEvalE(oprf.SuiteP384, SKVal(key), OPRFBlindE(oprf.SuiteP384, in, string(blind1))))
+	Vassert(string(r2[:Ne]) == OPRFEvalE(oprf.SuiteP384, SKVal(key), OPRFBlindE(oprf.SuiteP384, in, string(blind2))))
+	t1, e5 := s1.FinalizeToken(r1)
+	Vassume(e5 == nil)
+	Vassert(string(t1.Authenticator) == OPRFFull(oprf.SuiteP384, SKVal(key), in)) // proof step: the blind cancels
+	m1 := string(t1.Marshal())
+	t2, e6 := s2.FinalizeToken(r2)
+	Vassume(e6 == nil)
+	Vassert(string(t2.Authenticator) == OPRFFull(oprf.SuiteP384, SKVal(key), in))
+	m2 := string(t2.Marshal())
+	Vassert(m1 == m2)
+}
+
+// C11: request creation with a fixed blind is a function of its arguments.
+//
+//@ lemma props C11
+func lemmaRequestDeterministicType1(pk *oprf.PublicKey, challenge, nonce, keyID, blind []byte) {
+	Vassume(pk != nil && len(keyID) >= 1 && len(blind) <= 48)
+	client := BasicPrivateClient{}
+	s1, e1 := client.CreateTokenRequestWithBlind(challenge, nonce, keyID, pk, blind)
+	s2, e2 := client.CreateTokenRequestWithBlind(challenge, nonce, keyID, pk, blind)
+	Vassume(e1 == nil && e2 == nil)
+	Vassert(string(s1.Request().Marshal()) == string(s2.Request().Marshal()))
 }
